@@ -390,7 +390,18 @@ func (e *Env) applyProbe(op Op) {
 		o = m.Next
 	}
 	e.St.Inc("probe_calls")
-	if op.Variant%2 == 0 {
+	if op.Variant%3 == 2 {
+		// a lone time lookup, under the same conditions as the time sweep
+		if e.own("time") && e.Cfg.TimeIndex && m.Mono {
+			if c := e.timeCandidates(); len(c) > 0 {
+				e.timeOne(e.L, "time", "probe", c[int(r)%len(c)])
+			}
+		} else {
+			_, _ = e.L.GetByTime(time.UnixMicro(r))
+		}
+		return
+	}
+	if op.Variant%3 == 0 {
 		if e.own("consume") {
 			e.consumeOne(e.L, "consume", "probe", o, e.mc(r))
 		} else {
@@ -603,34 +614,40 @@ func (e *Env) timeSweep(l klevdb.Log, tag, what string) {
 		return
 	}
 	for _, q := range e.timeCandidates() {
-		g, err := l.GetByTime(time.UnixMicro(q))
-		o, ot, oerr := l.OffsetByTime(time.UnixMicro(q))
-		e.St.Inc("time_lookups")
-		want, ok := m.FirstAtOrAfterTime(q)
-		if !ok {
-			if len(m.Live) == 0 {
-				if !(errors.Is(err, klevdb.ErrNotFound) || errors.Is(err, klevdb.ErrInvalidOffset)) || !(errors.Is(oerr, klevdb.ErrNotFound) || errors.Is(oerr, klevdb.ErrInvalidOffset)) {
-					e.failf(tag, "%s: GetByTime(%d) without live messages returned %v / %v", what, q, err, oerr)
-				}
-			} else if !errors.Is(err, klevdb.ErrNotFound) || !errors.Is(oerr, klevdb.ErrNotFound) {
-				e.failf(tag, "%s: GetByTime(%d) after every live message returned offset %d,%v / %d,%v want ErrNotFound", what, q, g.Offset, err, o, oerr)
+		e.timeOne(l, tag, what, q)
+	}
+}
+
+// timeOne checks one GetByTime/OffsetByTime pair against the model (time index on, monotone times).
+func (e *Env) timeOne(l klevdb.Log, tag, what string, q int64) {
+	m := e.M
+	g, err := l.GetByTime(time.UnixMicro(q))
+	o, ot, oerr := l.OffsetByTime(time.UnixMicro(q))
+	e.St.Inc("time_lookups")
+	want, ok := m.FirstAtOrAfterTime(q)
+	if !ok {
+		if len(m.Live) == 0 {
+			if !(errors.Is(err, klevdb.ErrNotFound) || errors.Is(err, klevdb.ErrInvalidOffset)) || !(errors.Is(oerr, klevdb.ErrNotFound) || errors.Is(oerr, klevdb.ErrInvalidOffset)) {
+				e.failf(tag, "%s: GetByTime(%d) without live messages returned %v / %v", what, q, err, oerr)
 			}
-			continue
+		} else if !errors.Is(err, klevdb.ErrNotFound) || !errors.Is(oerr, klevdb.ErrNotFound) {
+			e.failf(tag, "%s: GetByTime(%d) after every live message returned offset %d,%v / %d,%v want ErrNotFound", what, q, g.Offset, err, o, oerr)
 		}
-		if err != nil || !want.Eq(g) {
-			e.failf(tag, "%s: GetByTime(%d) returned offset %d (time %d),%v want offset %d (time %d)", what, q, g.Offset, g.Time.UnixMicro(), err, want.Off, want.TS)
-		}
-		if oerr != nil || o != want.Off || ot.UnixMicro() != want.TS {
-			e.failf(tag, "%s: OffsetByTime(%d) returned %d,%d,%v want %d,%d", what, q, o, ot.UnixMicro(), oerr, want.Off, want.TS)
-		}
-		// class: the answer's timestamp also occurs on an earlier live message? then it must be the first of the run
-		i := m.Idx(want.Off)
-		if i > 0 && m.Live[i-1].TS == want.TS {
-			e.failf(tag, "model error: not first of run")
-		}
-		if i+1 < len(m.Live) && m.Live[i+1].TS == want.TS {
-			e.flag("time-equal-run")
-		}
+		return
+	}
+	if err != nil || !want.Eq(g) {
+		e.failf(tag, "%s: GetByTime(%d) returned offset %d (time %d),%v want offset %d (time %d)", what, q, g.Offset, g.Time.UnixMicro(), err, want.Off, want.TS)
+	}
+	if oerr != nil || o != want.Off || ot.UnixMicro() != want.TS {
+		e.failf(tag, "%s: OffsetByTime(%d) returned %d,%d,%v want %d,%d", what, q, o, ot.UnixMicro(), oerr, want.Off, want.TS)
+	}
+	// class: the answer's timestamp also occurs on an earlier live message? then it must be the first of the run
+	i := m.Idx(want.Off)
+	if i > 0 && m.Live[i-1].TS == want.TS {
+		e.failf(tag, "model error: not first of run")
+	}
+	if i+1 < len(m.Live) && m.Live[i+1].TS == want.TS {
+		e.flag("time-equal-run")
 	}
 }
 
